@@ -141,7 +141,9 @@ type key struct {
 
 func grid() []key {
 	return []key{
-		{"media", "hook", []opt{{"", "ok"}, {`hook = []`, "range"}, {`hook = [""]`, "range"}, {`hook = ["x"]`, "ok"}, {`hook = ["x", "%url"]`, "ok"}, {`hook = ["x", "%mimetype", "%supertype/%subtype", "%url"]`, "ok"}, {`hook = "x"`, "reject"}, {`hook = [1]`, "reject"}}},
+		{"media", "hook", []opt{{"", "ok"}, {`hook = []`, "range"}, {`hook = [""]`, "range"}, {`hook = ["x"]`, "ok"}, {`hook = ["x", "%url"]`, "ok"}, {`hook = ["x", "%mimetype", "%supertype/%subtype", "%url"]`, "ok"}, {`hook = "x"`, "reject"}, {`hook = [1]`, "reject"},
+			// the TOML decoder matches key names to fields without regard to letter case: these name the same settings
+			{`Hook = []`, "range"}, {`HOOK = [""]`, "range"}, {`Hook = ["x", "%url"]`, "ok"}}},
 		{"network", "cache_size", []opt{{"", "ok"}, {`cache_size = -1`, "range"}, {`cache_size = 0`, "range"}, {`cache_size = 1`, "ok"}, {`cache_size = 128`, "ok"}, {`cache_size = 1.5`, "reject"}, {`cache_size = "8"`, "reject"}}},
 		{"network", "preload_amount", []opt{{"", "ok"}, {`preload_amount = -1`, "range"}, {`preload_amount = -2`, "range"}, {`preload_amount = 0`, "ok"}, {`preload_amount = 1`, "ok"}, {`preload_amount = 5`, "ok"}, {`preload_amount = 300`, "ok"}, {`preload_amount = "1"`, "reject"}}},
 		{"network", "timeout_seconds", []opt{{"", "ok"}, {`timeout_seconds = -1`, "range"}, {`timeout_seconds = 0`, "range"}, {`timeout_seconds = 1`, "ok"}, {`timeout_seconds = 9223372037`, "range"}, {`timeout_seconds = "1s"`, "range"}, {`timeout_seconds = 1.5`, "reject"}, {`timeout_seconds = true`, "reject"}}},
@@ -714,7 +716,7 @@ func main() {
 
 func crashClass(text string) string {
 	var cls []string
-	for _, m := range []struct{ sub, name string }{{"hook = []", "empty-hook"}, {`hook = [""]`, "empty-program"}, {"cache_size = -1", "cache-size-nonpositive"}, {"cache_size = 0", "cache-size-nonpositive"},
+	for _, m := range []struct{ sub, name string }{{"hook = []", "empty-hook"}, {`hook = [""]`, "empty-program"}, {"Hook = []", "empty-hook"}, {`HOOK = [""]`, "empty-program"}, {"cache_size = -1", "cache-size-nonpositive"}, {"cache_size = 0", "cache-size-nonpositive"},
 		{"preload_amount = -", "preload-negative"}, {"timeout_seconds = -1", "timeout-negative"}, {"timeout_seconds = 9", "timeout-huge"}, {`timeout_seconds = "`, "timeout-string"}} {
 		if strings.Contains(text, m.sub) {
 			cls = append(cls, m.name)
